@@ -574,8 +574,10 @@ def _handle_binop(node: ast.BinOp, ctx: Context) -> sympy.Expr:
 
 
 def _get_inner_object(obj: object, levels: list[str]) -> sympy.Float | None:
-    # Check if object is instantiated, otherwise instantiate first
-    if isinstance(obj, type):
+    # An attribute the class itself has is read from the class, like python does.
+    # Only attributes that exist on instances alone (e.g. dataclass fields with a
+    # default factory) need an instance.
+    if isinstance(obj, type) and not (levels and hasattr(obj, levels[0])):
         obj = obj()
 
     for level in levels:
